@@ -976,16 +976,7 @@ func (in *Interp) concInt(v value, t types.Type, what string) int64 {
 		} else {
 			t64 = mkZext(v, 64)
 		}
-		lim := in.cfg.maxConcretize
-		small := mkCmp("bvult", t64, mkBV(uint64(lim), 64))
-		if !in.branch(small) {
-			// negative or large
-			if signed && in.branch(mkCmp("bvslt", t64, mkBV(0, 64))) {
-				return -1
-			}
-			panic(pathEnd{"bound", fmt.Sprintf("%s: symbolic size not below %d", what, lim)})
-		}
-		return int64(in.concretize(t64, lim))
+		return int64(in.concretizeAny(t64, what))
 	case poison:
 		panic(unsupported{what + " is poisoned: " + v.why})
 	}
